@@ -12,6 +12,7 @@ import (
 	"strconv"
 	"strings"
 
+	amino "github.com/tendermint/go-amino"
 	abci "github.com/tendermint/tendermint/abci/types"
 	"github.com/tendermint/tendermint/libs/log"
 	dbm "github.com/tendermint/tm-db"
@@ -527,6 +528,36 @@ func (f *Fam) query(w []string, fail func(string, string, string)) string {
 			if len(r2.Value) != 0 || r2.Proof != nil {
 				fail("snapshot-own-version", "C14:snapshot-answers-for-another-height", fmt.Sprintf("%s: a snapshot of the store at version %d answered a query for height %d with value %x (proof: %v)",
 					strings.Join(w, " "), latest, h, r2.Value, r2.Proof != nil))
+			}
+		}()
+	}
+	// a subspace query (every record whose key starts with the queried bytes) returns exactly those records: none of a
+	// neighbouring prefix, none missing
+	if i < len(f.a.keys) && len(key) > 0 {
+		func() {
+			defer func() { recover() }()
+			r3 := f.a.ms.Query(abci.RequestQuery{Path: fmt.Sprintf("/s%d/subspace", i), Data: key})
+			if r3.Code != 0 {
+				return
+			}
+			var kvs []stypes.KVPair
+			if err := amino.NewCodec().UnmarshalBinaryLengthPrefixed(r3.Value, &kvs); err != nil {
+				return
+			}
+			var got, want []string
+			for _, p := range kvs {
+				got = append(got, hx(p.Key)+"="+hx(p.Value))
+			}
+			it := f.a.ms.GetCommitKVStore(f.a.keys[i]).Iterator(nil, nil)
+			for ; it.Valid(); it.Next() {
+				if bytes.HasPrefix(it.Key(), key) {
+					want = append(want, hx(it.Key())+"="+hx(it.Value()))
+				}
+			}
+			it.Close()
+			f.extra["subspace-queries"]++
+			if strings.Join(got, ",") != strings.Join(want, ",") {
+				fail("subspace-exact", "C14:subspace-query-not-exact", fmt.Sprintf("%s: the subspace query for %s returned [%s], the store holds under that prefix [%s]", strings.Join(w, " "), hx(key), strings.Join(got, ","), strings.Join(want, ",")))
 			}
 		}()
 	}
